@@ -245,6 +245,11 @@ def _run(ctx, libdir, rebound, ft, E, rng, tmpd):
             p = os.path.join(tmpd, "rr_%d_%d.bin" % (si, k))
             open(p, "wb").write(f0[:k])
             rr_jobs.append({"kind": "rerun", "file": p, "spec": sc["spec"], "segs": sc["segs"]}); rr_meta.append((si, k, len(f0)))
+        if si == 1:
+            for k in (len(f0) - 12, len(f0) - 7, len(f0) - 1):
+                p = os.path.join(tmpd, "r1f_%d_%d.bin" % (si, k))
+                open(p, "wb").write(f0[:k])
+                r1_jobs.append({"kind": "resume1", "file": p, "ops": list(sc["segs"][1])}); r1_meta.append((si, 0, k))
         cuts0 = sorted(set(list(range(0, 20)) + [63, 64, 65, 79, 80, 81] + list(range(len(f0) - 40, len(f0) + 1)) + rng.sample(range(len(f0)), ctx.scale(40, 600))))
         for k in cuts0:
             p = os.path.join(tmpd, "img_%d_0_%d.bin" % (si, k))
@@ -286,7 +291,13 @@ def _run(ctx, libdir, rebound, ft, E, rng, tmpd):
     rrbad = []; leak = []
     for (si, k, n0), r in zip(rr_meta, rrres):
         ctx.case(key=("rerun", si, k), sample={"first_write_cut": k, "of": n0, "scenario": si, "restarted_from_snapshot0": r.get("restarted_from_snapshot0")} if len(ctx.samples) < 6 else None)
-        same = (r.get("snap_hashes") == ref_hash.get(si)) if r.get("restarted_from_snapshot0") else (r.get("snap_hashes_noseed") == ref_noseed.get(si))
+        if k >= n0 - 12:
+            # cut inside the trailer of snapshot 0: snapshot 0 is exposed; restart + continue + append must give the uninterrupted archive
+            same = r.get("restarted_from_snapshot0") and r.get("snap_hashes") == ref_hash.get(si)
+        else:
+            # no complete snapshot exists: opening reports an error (checked by the sweep); re-running with the same file name is refused
+            # with a warning and the user's file is left alone - accepted (outside the property); it must not crash or leak
+            same = (not r.get("restarted_from_snapshot0")) and "died" not in r and "exception" not in r
         if si in ref_hash and not same:
             rrbad.append((si, k, n0, r))
         if r.get("fd_growth", 0) > 0:
@@ -359,18 +370,20 @@ def _run(ctx, libdir, rebound, ft, E, rng, tmpd):
     abad = vlib.parse_coq_list_nat(aout) if aok else None
     size_bad = [i for i, o in enumerate(obs) if o["size_before"] != o["size_after"]]
     ctx.obligation("correspondence:C07 attach model == library on %d attach calls (auto_interval/auto_walltime/auto_step/next/next_step; no file write)" % len(obs),
-                   len(obs) >= 10 and abad == [] and not size_bad,
+                   len(obs) >= 30 and abad == [] and not size_bad,
                    "mismatching attach observations %s %s %s" % (abad, size_bad, [obs[i] for i in (abad or [])[:2]] if abad else (aout[-300:] if not aok else str(ar)[:300])))
     ctx.traces += len(obs) if abad == [] else 0
 
     # ---- automatic cadence x crash points x 1-3 crash/restart cycles: restarted archive == uninterrupted archive
     aj = []
-    for mode, val in (("step", 25), ("interval", 25 * 0.1313), ("step", 7), ("interval", 9.37 * 0.1313)):
+    # both directions of time (the heartbeat uses sign(dt)), t0 = 0 and != 0
+    for mode, val, dt, t0 in (("step", 25, 0.1313, 0.0), ("interval", 25 * 0.1313, 0.1313, 0.0), ("step", 7, -0.1313, 2.0), ("interval", 9.37 * 0.1313, 0.1313, -3.0),
+                              ("interval", 25 * 0.1313, -0.1313, 0.0), ("interval", 9.37 * 0.1313, -0.1313, 5.0)):
         n_snap = 230 // 25 if val in (25, 25 * 0.1313) else 230 // 9
         for ncyc in (1, 2, 3):
             for rep in range(ctx.scale(1, 6)):
                 js = sorted(rng.sample(range(1, n_snap), ncyc))
-                aj.append({"kind": "autocrash", "mode": mode, "val": val, "nsteps": 230,
+                aj.append({"kind": "autocrash", "mode": mode, "val": val, "nsteps": 230, "dt": dt, "t0": t0,
                            "crashes": [[j, rng.choice([0.0, 0.005, 0.012, rng.random(), rng.random(), 0.985, 0.999])] for j in js]})
     ares = c06.run_jobs(libdir, [[j] for j in aj], timeout=200)
     abadl = []
